@@ -56,8 +56,9 @@ fn flattenable(m: &Module, idx: usize) -> bool {
                 && match td.attrs.repr() {
                     typegen::Repr::External => vs.iter().filter(|v| !v.skip).all(|v| match &v.body {
                         typegen::VBody::Unit => false,
-                        typegen::VBody::Newtype(f) => !f.skip,
-                        _ => true,
+                        typegen::VBody::Newtype(f) => !f.skip && !v.untagged,
+                        typegen::VBody::Named(_) => true,
+                        _ => !v.untagged,
                     }),
                     typegen::Repr::Internal | typegen::Repr::Adjacent => vs.iter().all(|v| !v.untagged),
                     typegen::Repr::Untagged => false,
@@ -219,7 +220,14 @@ fn pick_newtype_variant(m: &Module) -> Option<(usize, usize)> {
             for (vi, v) in vs.iter().enumerate().rev() {
                 if let typegen::VBody::Newtype(f) = &v.body {
                     let plain = !f.skip && !f.inline && !f.as_same && f.as_type.is_none() && f.type_override.is_none() && f.optional.is_none();
-                    if plain && !v.skip && v.as_type.is_none() && !matches!(f.ty, TyExpr::SelfRef(_) | TyExpr::Option(_)) {
+                    // (a payload written as nothing - `()`, a unit struct - has no `Option` form in
+                    // an internally tagged enum: `{ "t": "V" } & (null | null)`)
+                    let unit = match &f.ty {
+                        TyExpr::Prim("()") => true,
+                        TyExpr::User(u, _) => matches!(m.types[*u].body, Body::Unit),
+                        _ => false,
+                    };
+                    if plain && !unit && !v.skip && v.as_type.is_none() && !matches!(f.ty, TyExpr::SelfRef(_) | TyExpr::Option(_)) {
                         return Some((ei, vi));
                     }
                 }
